@@ -4,10 +4,9 @@ import Ysgo.Lemmas.Bridge
 
 Over the model `Ysgo.Bridge` of function_storer.go / command_storer.go (as repaired). `registerFunction` /
 `registerCommand` take a `HostValue`: `nilIface` (a nil `any`), `notFunc t`, `fn s` (a function of signature `s`), and
-`nilFn s` — a nil function VALUE of a function type. The property's "function" is `fn s`; `nilFn s` passes the gates of
-the code as it is (only the type is inspected) and its call panics in `reflect.Value.Call` — a defect of the
-implementation that the model mirrors, stated at the end (`nilFn_accepted_then_call_panics`) and reported as a finding;
-the theorems below are about `fn s`.
+`nilFn s` — a nil function VALUE of a function type, which is refused like the other non-callable values (`nilFn_refused`;
+before the repair of finding F29 it passed the gates, only the type being inspected, and every call panicked in
+`reflect.Value.Call`). The theorems about accepted bridges are about `fn s`, the only accepted constructor.
 -/
 namespace Ysgo.C16
 open Ysgo Ysgo.Bridge
@@ -321,21 +320,12 @@ example : (invokeFnOld ⟨{ params := [.basic .int true] }, .noReturn, false⟩ 
 example : (invokeFn ⟨{ params := [.basic .int true] }, .noReturn, false⟩ (fun _ => []) [.num (F64.ofInt 3)]).received =
     some [⟨.basic .int true, .int 3⟩] := by decide
 
-/-- **Finding (defect of the code as it is, mirrored by the model)**: a nil function VALUE passes both gates — only
-`reflect.TypeOf` is inspected — and every call that gets past the argument conversion panics in `reflect.Value.Call`
-("call of nil function"); for a command without channel result the panic happens inside the wrapper's goroutine. -/
-theorem nilFn_accepted_then_call_panics (s : Sig) (b : FnBridge) (h : registerFunction (.fn s) = .ok b)
-    (host : Host) (args : List Value) (hm : argsMatch s args = true) :
-    registerFunction (.nilFn s) = .ok { b with nilFn := true } ∧
-    (invokeFn { b with nilFn := true } host args).out = .panic .nilDeref := by
-  obtain ⟨h1, h2, rfl⟩ := (registerFunction_fn s b).mp h
-  constructor
-  · cases hc : checkFunctionOutputs s.results with
-    | none => simp [hc] at h1
-    | some r => simp [registerFunction, hc, h2, checkFunctionOutputs_eq _ _ hc]
-  · simp [invokeFn, convertInputs_of_match s args hm, reflectCall]
+/-- a nil function VALUE of a function type is refused at registration (repaired: it used to pass both gates — only
+`reflect.TypeOf` was inspected — and every call then panicked in `reflect.Value.Call`, finding F29) -/
+theorem nilFn_refused (s : Sig) :
+    registerFunction (.nilFn s) = .err .other ∧ registerCommand (.nilFn s) = .err .other := ⟨rfl, rfl⟩
 
-example : registerFunction (.nilFn { params := [] }) = .ok ⟨{ params := [] }, .noReturn, true⟩ := rfl
+/-- documentation of F29: a bridge around a nil function value, had it been accepted, panics on every call -/
 example : (invokeFn ⟨{ params := [] }, .noReturn, true⟩ (fun _ => []) []).out = .panic .nilDeref := rfl
 
 end Ysgo.C16
